@@ -30,6 +30,7 @@ type c02Piece struct {
 }
 
 type c02Case struct {
+	Rcpts   int // 1-3 recipients: every copy must be complete
 	Store   StoreCfg
 	Net     simnet.Profile
 	Pieces  []c02Piece
@@ -38,7 +39,7 @@ type c02Case struct {
 }
 
 func (k *c02Case) Describe() []string {
-	l := []string{fmt.Sprintf("store=%s %s headers=%v noFinalNewline=%v size=%d", k.Store, profileString(k.Net), k.Headers, k.NoFinal, len(k.data()))}
+	l := []string{fmt.Sprintf("store=%s %s recipients=%d noFinalNewline=%v size=%d", k.Store, profileString(k.Net), k.Rcpts, k.NoFinal, len(k.data()))}
 	for i, p := range k.Pieces {
 		l = append(l, fmt.Sprintf("%3d %s n=%d", i, p.Kind, p.N))
 	}
@@ -63,7 +64,7 @@ func (k *c02Case) data() []byte {
 	if k.Headers {
 		b.WriteString("From: <hdr@sender.test>\r\nSubject: c02\r\n\r\n")
 	}
-	const plain = "abcdefghijklmnopqrstuvwxyz ABC.,;:-_0123456789"
+	const plain = "abcdefghijklmnopqrstuvwxyz ABC.,;:-_0123456789%"
 	for _, p := range k.Pieces {
 		switch p.Kind {
 		case "text":
@@ -73,6 +74,10 @@ func (k *c02Case) data() []byte {
 			b.WriteString(strings.Repeat(".", 1+p.N%3))
 			b.Write(c02Fill(p.Seed, p.N/3, plain))
 			b.WriteString("\r\n")
+		case "percent":
+			b.WriteString("100% sure %s %d %v %% %!s(MISSING) %")
+			b.Write(c02Fill(p.Seed, p.N%40, plain))
+			b.WriteString("%\r\n")
 		case "lonedot":
 			b.WriteString(".\r\n")
 		case "empty":
@@ -111,8 +116,9 @@ func genC02(w *simrt.Choices, tier string, avoid map[string]bool) Case {
 	// a message needs a header block to be a message: without one the server may
 	// legitimately refuse it (451), so the adversarial part is the body
 	k.Headers = true
+	k.Rcpts = 1 + w.Choose(3)
 	k.NoFinal = w.Choose(4) == 0
-	kinds := []string{"text", "text", "dots", "lonedot", "empty", "barelf", "barecr", "nul8", "long"}
+	kinds := []string{"text", "text", "dots", "lonedot", "empty", "barelf", "barecr", "nul8", "long", "percent"}
 	n := w.Choose(14)
 	budget := 64 << 10
 	if tier == "thorough" && w.Choose(6) == 0 {
@@ -178,7 +184,9 @@ func runC02(c *Ctx, cs Case) {
 
 	data := k.data()
 	transmitted := ensureCRLF(data) // what precedes the terminating ".CRLF" on the wire
-	const sender, rcpt, box, helo = "sender@origin.test", "reader@example.com", "reader", "client.sim"
+	const sender, helo = "sender@origin.test", "client.sim"
+	boxes := []string{"reader", "reader2", "reader3"}[:k.Rcpts]
+	box := boxes[len(boxes)-1] // the interfaces are compared on the last recipient's copy
 	okSent := false
 	t := c.Go("smtp-client", func() {
 		cl, err := dialSMTP(c, "smtp", 900*time.Second)
@@ -190,7 +198,9 @@ func runC02(c *Ctx, cs Case) {
 		cl.readReply()
 		cl.cmd("EHLO " + helo)
 		cl.cmd("MAIL FROM:<" + sender + ">")
-		cl.cmd("RCPT TO:<" + rcpt + ">")
+		for _, b := range boxes {
+			cl.cmd("RCPT TO:<" + b + "@example.com>")
+		}
 		if r := cl.cmd("DATA"); r.Code != 354 {
 			c.Failf("data-refused", "DATA answered %s", r)
 			return
@@ -210,6 +220,26 @@ func runC02(c *Ctx, cs Case) {
 	if err != nil || len(ms) != 1 {
 		c.Failf("message-not-stored", "mailbox %q lists %d messages (err=%v) after one acknowledged delivery", box, len(ms), err)
 		return
+	}
+	// every recipient's copy is complete
+	for _, b := range boxes {
+		l, err := st.GetMessages(b)
+		if err != nil || len(l) != 1 {
+			c.Failf("message-not-stored", "mailbox %q lists %d messages (err=%v) after one acknowledged delivery to %d recipients", b, len(l), err, len(boxes))
+			return
+		}
+		r, err := l[0].Source()
+		if err != nil {
+			c.Failf("store-source-error", "%q: Source(): %v", b, err)
+			return
+		}
+		src, _ := io.ReadAll(r)
+		_ = r.Close()
+		if !bytes.HasSuffix(normCRLF(src), normCRLF(ensureCRLF(k.data()))) {
+			c.Failf(k.Store.Backend+"/recipient-copy-incomplete", "the copy in mailbox %q (recipient %d of %d) does not end with the transmitted data: %d bytes stored, %d transmitted",
+				b, indexOf(boxes, b)+1, len(boxes), len(src), len(k.data()))
+			return
+		}
 	}
 	m := ms[0]
 	rd, err := m.Source()
@@ -425,4 +455,13 @@ func init() {
 		Stub: []string{"TCP (simnet) for SMTP and POP3", "net/http server loop (handlers invoked through the router with a recorder)", "disk", "scheduler"},
 		Assumptions: []string{"line-ending normalisation = CRLF->LF in one left-to-right pass; a CR right before CRLF / end of data is excluded"},
 	})
+}
+
+func indexOf(l []string, s string) int {
+	for i, x := range l {
+		if x == s {
+			return i
+		}
+	}
+	return -1
 }
